@@ -322,7 +322,6 @@ class LinearPaths:
       a = gfapy.SegmentEnd(b).inverted()
       if self._progress:
         self._progress_log("merge_linear_paths", 0.95)
-    merged.vlevel = merged_vlevel
     if isinstance(merged.name, list):
       merged.name = "_".join(merged.name)
     ortag = merged.get("or")
@@ -331,6 +330,10 @@ class LinearPaths:
       merged.set("or", ",".join(ortag))
     if not gfapy.is_placeholder(merged.sequence):
       merged.sequence = "".join(merged.sequence)
+    # (the fields which were lists while the path was collected are joined:
+    #  the validation level of the graph applies to the segment again)
+    merged.vlevel = merged_vlevel
+    if not gfapy.is_placeholder(merged.sequence):
       if self._version == "gfa1":
         if not merged.LN:
           merged.LN = len(merged.sequence)
